@@ -576,6 +576,11 @@ impl FetchState {
             start.elapsed().as_millis()
         );
 
+        // N.b. only the tips of remotes that passed validation may be
+        // applied: remotes for which no `rad/sigrefs` could be loaded,
+        // or that are blocked, never went through validation.
+        self.tips.retain(|remote, _| remotes.contains(remote));
+
         // N.b. only apply to Git repository if there are enough valid
         // delegates that pass the threshold.
         if valid_delegates.len() >= threshold {
